@@ -123,7 +123,24 @@ _TRACE = bool(_os.environ.get("PYVC_TRACE"))
 _STMT = bool(_os.environ.get("PYVC_STMT"))
 QUICK_TIMEOUT_MS = 20000
 Z3_FIRST_MS = 1500
+SMALL_FACTS_MS = 1200
 Z3_SECOND_MS = 7000
+
+
+def _is_small(t, limit=120):
+    """fewer than `limit` nodes in the term (bounded traversal)"""
+    n = 0
+    stack = [t]
+    while stack:
+        x = stack.pop()
+        n += 1
+        if n > limit:
+            return False
+        if z3.is_quantifier(x):
+            stack.append(x.body())
+        elif z3.is_app(x):
+            stack.extend(x.children())
+    return True
 CVC5_MS = 10000
 _PREFER = {}          # obligation name -> back end that discharged it last time (ordering hint only)
 FEAS_TIMEOUT_MS = 250
@@ -144,6 +161,7 @@ class Engine:
         self.solver = z3.Solver()
         self.solver.set("timeout", FEAS_TIMEOUT_MS)
         self.facts = []
+        self.fact_small = []
         self.obligations = []
         self.counter = {}
         self.depth = 0
@@ -203,6 +221,7 @@ class Engine:
             raise PathEnd("infeasible")
         t = as_bool_term(cond)
         self.facts.append(t)
+        self.fact_small.append(_is_small(t))
         self.solver.add(t)
 
     def _check(self, *extra):
@@ -330,6 +349,25 @@ class Engine:
             self.qlog.append((name, "proved"))
             self.assume(SBool(goal))
             return True
+        # first attempt from the small facts only (sound: a subset of the hypotheses); the large definitional
+        # unfoldings slow the solver down even when the goal does not need them
+        if len(self.facts) > 12 and not all(self.fact_small[:len(self.facts)]):
+            s0 = z3.Solver()
+            s0.set("timeout", SMALL_FACTS_MS)
+            for f, sm in zip(self.facts, self.fact_small):
+                if sm:
+                    s0.add(f)
+            s0.add(z3.Not(goal))
+            if s0.check() == z3.unsat:
+                dt = time.time() - t0
+                self.solver_seconds += dt
+                self.obligations.append(Obligation(name, "proved", dt, "z3-small", path=self.path_id,
+                                                   detail=detail or (str(z3.simplify(goal))[:300]), kind=kind))
+                self.qlog.append((name, "proved"))
+                if _TRACE:
+                    print("    OBL %-8s %.2fs %s [%s] (small facts)" % ("proved", dt, name, self.path_id), flush=True)
+                self.assume(SBool(goal))
+                return True
         s = self.solver
         s.push()
         s.add(z3.Not(goal))
